@@ -403,26 +403,31 @@ func (r *relay) header(
 	streamEnded bool,
 	priority http2.PriorityParam,
 ) error {
-	encoded, err := r.encodeFull(headers)
-	if err != nil {
-		return fmt.Errorf("encoding headers %v: %w", headers, err)
-	}
+	// The header block is encoded when the frame is sent, not when it is queued: HPACK encodings
+	// depend on the blocks sent before them, and a frame queued behind flow-controlled DATA of its
+	// stream may be overtaken by header blocks of other streams.
+	encode := func() ([][]byte, error) {
+		encoded, err := r.encodeFull(headers)
+		if err != nil {
+			return nil, fmt.Errorf("encoding headers %v: %w", headers, err)
+		}
 
-	maxPayloadLength := atomic.LoadUint32(&r.maxFrameSize)
-	// Padding is not implemented because the extra security is not needed for a development proxy.
-	// If it were used, a single padding length octet should be deducted from the max header fragment
-	// length.
-	maxHeaderFragmentLength := maxPayloadLength
-	if !priority.IsZero() {
-		maxHeaderFragmentLength -= headersPriorityMetadataLength
+		maxPayloadLength := atomic.LoadUint32(&r.maxFrameSize)
+		// Padding is not implemented because the extra security is not needed for a development proxy.
+		// If it were used, a single padding length octet should be deducted from the max header fragment
+		// length.
+		maxHeaderFragmentLength := maxPayloadLength
+		if !priority.IsZero() {
+			maxHeaderFragmentLength -= headersPriorityMetadataLength
+		}
+		return splitIntoChunks(int(maxHeaderFragmentLength), int(maxPayloadLength), encoded), nil
 	}
-	chunks := splitIntoChunks(int(maxHeaderFragmentLength), int(maxPayloadLength), encoded)
 
 	r.enqueueFrame(&queuedHeaderFrame{
 		streamID:  id,
 		endStream: streamEnded,
 		priority:  priority,
-		chunks:    chunks,
+		encode:    encode,
 	})
 	return nil
 }
@@ -442,19 +447,22 @@ func (r *relay) rstStream(id uint32, errCode http2.ErrCode) {
 }
 
 func (r *relay) pushPromise(id, promiseID uint32, headers []hpack.HeaderField) error {
-	encoded, err := r.encodeFull(headers)
-	if err != nil {
-		return fmt.Errorf("encoding push promise headers %v: %w", headers, err)
-	}
+	// Encoded when sent, see header.
+	encode := func() ([][]byte, error) {
+		encoded, err := r.encodeFull(headers)
+		if err != nil {
+			return nil, fmt.Errorf("encoding push promise headers %v: %w", headers, err)
+		}
 
-	maxPayloadLength := atomic.LoadUint32(&r.maxFrameSize)
-	maxHeaderFragmentLength := maxPayloadLength - pushPromiseMetadataLength
-	chunks := splitIntoChunks(int(maxHeaderFragmentLength), int(maxPayloadLength), encoded)
+		maxPayloadLength := atomic.LoadUint32(&r.maxFrameSize)
+		maxHeaderFragmentLength := maxPayloadLength - pushPromiseMetadataLength
+		return splitIntoChunks(int(maxHeaderFragmentLength), int(maxPayloadLength), encoded), nil
+	}
 
 	r.enqueueFrame(&queuedPushPromiseFrame{
 		streamID:  id,
 		promiseID: promiseID,
-		chunks:    chunks,
+		encode:    encode,
 	})
 	return nil
 }
